@@ -76,10 +76,35 @@ def add_weak_base(desc):
     return d
 
 
+def permute_plain_deps(desc, rng):
+    """reverse a run of adjacent dependencies of one recipe that are plain names or only set variables for
+    the dependency: nothing flows between them, so only the visiting order changes"""
+    d = copy.deepcopy(desc)
+    cands = []
+    for n, r in sorted(d["recipes"].items()):
+        deps = r.get("depends", [])
+        i = 0
+        while i < len(deps):
+            j = i
+            while j < len(deps) and (isinstance(deps[j], str) or set(deps[j]) <= {"name", "environment"}):
+                j += 1
+            if j - i >= 2:
+                cands.append((n, i, j))
+            i = max(j, i + 1)
+    if not cands:
+        return None
+    n, i, j = rng.choice(cands)
+    deps = d["recipes"][n]["depends"]
+    d["recipes"][n]["depends"] = deps[:i] + list(reversed(deps[i:j])) + deps[j:]
+    d["_permuted"] = n
+    return d
+
+
 def dump_at(desc, sandbox, where=None, order=None, hashseed="0", twice=False):
     p = core.scratch_dir("c03") if where is None else where
     try:
         os.makedirs(p, exist_ok=True)
+        desc = {k: v for k, v in desc.items() if not k.startswith("_")}
         proj.write_project(desc, p, order=order)
         r = proj.dump(p, sandbox=sandbox, hashseed=hashseed, extra_args=["--bid"])
         if twice:      # warm caches: second invocation in the same directory
@@ -142,6 +167,11 @@ def run(ctx):
             if e is not None:
                 cfgs.append(("edit:" + e[1], e[0], dict(sandbox=sandbox)))
         cfgs.append(("sandbox-flip", base, dict(sandbox=not sandbox)))
+        # the order in which packages are reached: permute dependencies that hand over nothing but their result
+        for _ in range(2):
+            pd = permute_plain_deps(base, rng)
+            if pd is not None:
+                cfgs.append(("dep-order", pd, dict(sandbox=sandbox)))
         jobs.append(cfgs)
     flat = [(ji, ci) for ji, cfgs in enumerate(jobs) for ci in range(len(cfgs))]
     with ThreadPoolExecutor(max_workers=12) as ex:
@@ -175,7 +205,17 @@ def run(ctx):
                                   {"desc": desc, "config": label})
                     continue
                 ids = ids_of(rr)
-                if label == "sandbox-flip":
+                if label == "dep-order":
+                    # the permuted recipe's own steps (and its dependents) see another argument order; everything
+                    # reached THROUGH its dependencies must keep its ids
+                    pname = desc.get("_permuted")
+                    own = {p for p, pk in base["packages"].items() if pk["recipe"] == pname}
+                    def below_permuted(path):
+                        return any(path.startswith(o + "/") for o in own)
+                    keys = [k for k in base_ids if k in ids and below_permuted(k[0])]
+                    diff = [k for k in keys if base_ids[k][0] != ids[k][0]]
+                    ctx.count("dep-order:compared-steps", len(keys))
+                elif label == "sandbox-flip":
                     skip = tainted_by_sandbox(base) | tainted_by_sandbox(rr)
                     keys = [k for k in base_ids if k in ids and k not in skip]
                     diff = [k for k in keys if base_ids[k][0] != ids[k][0]]
